@@ -165,6 +165,9 @@ type WriterScn struct {
 	// error (a device that took the data and then failed to flush it).  Legal:
 	// io.Writer only demands an error when n < len(p).
 	Full bool `json:"full,omitempty"`
+	// Err: which error value the failing call returns ("" = a private
+	// sentinel; see writerErrKinds)
+	Err string `json:"err,omitempty"`
 	// GC: a garbage collection (finalizers included) runs between the failed
 	// Format and the healthy one that follows it
 	GC bool `json:"gc,omitempty"`
